@@ -24,6 +24,20 @@ TArdClear ==
     /\ NoHeap(Ev)
     /\ UNCHANGED <<env, ctr, par>>
 
-ArdNext == TraceNext \/ TArdClear
+(* CTRCommon::setCounterSize(n), n in 1..16: from now on only the low n bytes of  *)
+(* the counter block are incremented (modulo 2^(8n)); the bytes above are a fixed  *)
+(* prefix.  Specified at block boundaries of the stream (the scenarios call it     *)
+(* right after setIV); the C library has no counterpart (its width is always 16).  *)
+TArdSetCounterSize ==
+    /\ IsEvent("ard_set_counter_size")
+    /\ LET ev == Ev  o == ev.o
+           valid == ev.size >= 1 /\ ev.size <= 16
+       IN  /\ ctr["s128"][o].pos[2] = 0
+           /\ Chk("setCounterSize ret", IF valid THEN 1 ELSE 0, ev.ret)
+           /\ IF valid THEN ctr' = [ctr EXCEPT !["s128"][o].csz = ev.size] ELSE UNCHANGED ctr
+           /\ NoHeap(ev)
+    /\ UNCHANGED <<env, ks, tks, mks, par>>
+
+ArdNext == TraceNext \/ TArdClear \/ TArdSetCounterSize
 ArdSpec == TraceInit /\ [][ArdNext]_vars
 =============================================================================
